@@ -127,7 +127,18 @@ const LONGS: &[&str] = &[
     "uniform", "victor", "whiskey", "xray", "yankee", "zulu", "verbose", "output", "input",
     "dry-run", "level", "jobs", "x", "no-color", "target2",
 ];
-const NONASCII_LONGS: &[&str] = &["naïve", "größe", "файл", "日本"];
+// (the longer ones are wider in bytes than the 24-column tab stop of the help layout while
+// being narrower in characters)
+const NONASCII_LONGS: &[&str] = &[
+    "naïve",
+    "größe",
+    "файл",
+    "日本",
+    "конфигурация",
+    "настройки-вывода",
+    "ファイル名前設定",
+];
+const NONASCII_CMDS: &[&str] = &["сборка-проекта", "größenänderung", "ファイル一覧表示"];
 const CMDS: &[&str] = &[
     "build", "run", "test", "check", "clean", "add", "remove", "list", "show", "init", "push",
     "pull", "sync", "fetch", "status",
@@ -193,7 +204,11 @@ impl<'a> Pool<'a> {
 
     pub fn cmd_name(&mut self) -> String {
         loop {
-            let base = *self.rng.pick(CMDS);
+            let base = if self.o.nonascii && self.rng.chance(1, 12) {
+                *self.rng.pick(NONASCII_CMDS)
+            } else {
+                *self.rng.pick(CMDS)
+            };
             let cand = if self.longs.contains(base) {
                 format!("{}{}", base, self.rng.below(100))
             } else {
